@@ -531,9 +531,10 @@ class C06MMon(Monitor):
                         continue
                     raise Violation("C06.m_future", "a market query for a time later than the current time was answered | %s(%d) at time %d returned %r" % (g, s, t, val))
                 for g in self.BULK:
-                    try:
-                        val = getattr(m, g)([t, s])
-                    except Exception:  # noqa
-                        continue
-                    raise Violation("C06.m_future", "a market query for a time later than the current time was answered | %s([%d,%d]) returned %r" % (g, t, s, val))
+                    for times in ([t, s], [s, t], (s, 0), range(s, -1, -1), iter([s, t]), [0, s, t]):
+                        try:
+                            val = getattr(m, g)(times)
+                        except Exception:  # noqa
+                            continue
+                        raise Violation("C06.m_future", "a market query for a time later than the current time was answered | %s(list containing %d) at time %d returned %r" % (g, s, t, val))
             w.wit.inc("future_queries_refused")
